@@ -2,8 +2,11 @@
 from vlib.framework import PUnit, LUnit, BUnit
 from bounded import b_build as B
 from contracts import build_file as BF
+from contracts import ligands as LG
 
-P_UNITS = [PUnit("tag-nodes", [BF.TAG_NODES], BF.REG)]
+P_UNITS = [PUnit("tag-nodes", [BF.TAG_NODES, BF.TAG_NODES_RW], BF.REG),
+           PUnit("molecule-selection", [BF.PARSE_GEOMETRY, BF.FINALIZE], BF.REG),
+           PUnit("residue-selection", [LG.FIND_NODES], LG.REG)]
 
 
 def build(tier, seed):
